@@ -359,7 +359,7 @@ func init() {
 		PropCheck: "prop_bad_ids",
 		Gen:       c18Gen,
 		Run:       c18Run,
-		Rule:      "single-threaded op sequences on a real inspector/participant (valid, wrong-message, non-deserializable, wrong-length and duplicate shares, in- and out-of-range indices, fills around t / t+1 / t+2, final HasShare/EnoughShares/ThresholdSignature probes) and concurrent histories (2-8 goroutines, <= 9 stamped operations + sequential probes); non-trivial if at least one share was accepted or rejected; distinct by (n, t, op list / thread assignment)",
+		Rule:      "single-threaded op sequences on a real inspector/participant (valid, wrong-message, non-deserializable, wrong-length and duplicate shares, in- and out-of-range indices, fills around t / t+1 / t+2, final HasShare/EnoughShares/ThresholdSignature probes) and concurrent histories (2-8 goroutines, <= 9 stamped operations + sequential probes); forced schedules: all goroutines add the same signer at once (exactly one may succeed), the pool one share short and 3-5 goroutines adding distinct genuine shares at once (exactly one retained, EnoughShares / ThresholdSignature asked meanwhile), only state-free calls at once with pairwise different arguments (VerifyShare of distinct signers and share kinds, VerifyThresholdSignature of each kind, SignShare), a full genuine pool and the first reconstruction called from every goroutine at once; non-trivial if at least one share was accepted or rejected; distinct by (n, t, op list / thread assignment)",
 		RaceKinds: []string{"concurrent"},
 		Shard:     25,
 	})
@@ -562,6 +562,111 @@ func c18Gen(tier string, r *rand.Rand) []Case {
 			in.Threads[j%g] = append(in.Threads[j%g], c18Op{Op: "ts"})
 		}
 		cs = append(cs, mkcase("concurrent-reconstruct-invalid-pool", in))
+	}
+	// ---- rare schedules forced instead of left to the random assignment ----
+	nforce := 14
+	if tier == "thorough" {
+		nforce = 150
+	}
+	small := func() c18In { // t in {1,2}, n = t+3 .. 6: room for several extra signers
+		in := c18Params(r)
+		in.T = 1 + r.IntN(2)
+		in.N = in.T + 3 + r.IntN(4-in.T)
+		if in.My >= in.N {
+			in.My = r.IntN(in.N)
+		}
+		return in
+	}
+	addOp := func(i int) c18Op { return c18Op{Op: []string{"ta", "va"}[r.IntN(2)], I: i, S: 2 * i} }
+	for k := 0; k < nforce; k++ {
+		// (1) every goroutine adds the SAME signer at the same time (either add, the genuine share):
+		// exactly one may succeed, the others are duplicates; one more goroutine asks HasShare
+		in := small()
+		perm := r.Perm(in.N)
+		pre := r.IntN(in.T + 1) // 0..t shares already in the pool
+		for j := 0; j < pre; j++ {
+			in.Seq = append(in.Seq, addOp(perm[j]))
+		}
+		target := perm[pre]
+		g := 2 + r.IntN(4)
+		if pre+g+1 > 9 {
+			g = 9 - pre - 1
+		}
+		in.Threads = make([][]c18Op, g+1)
+		for j := 0; j < g; j++ {
+			in.Threads[j] = []c18Op{addOp(target)}
+		}
+		in.Threads[g] = []c18Op{{Op: "hs", I: target}}
+		cs = append(cs, mkcase("concurrent-same-signer", in))
+
+		// (2) the pool is one share short; 3..5 goroutines add DISTINCT genuine shares at the same time, one
+		// more asks EnoughShares / ThresholdSignature: exactly one add may be retained
+		in = small()
+		perm = r.Perm(in.N)
+		for j := 0; j < in.T; j++ {
+			in.Seq = append(in.Seq, addOp(perm[j]))
+		}
+		g = in.N - in.T
+		if g > 5 {
+			g = 5
+		}
+		in.Threads = make([][]c18Op, g+1)
+		for j := 0; j < g; j++ {
+			in.Threads[j] = []c18Op{addOp(perm[in.T+j])}
+		}
+		in.Threads[g] = []c18Op{{Op: []string{"es", "ts"}[r.IntN(2)]}}
+		if in.T+g+1 < 9 {
+			in.Threads[g] = append(in.Threads[g], c18Op{Op: "ts"})
+		}
+		cs = append(cs, mkcase("concurrent-last-slot", in))
+	}
+	for k := 0; k < nforce*2/3; k++ {
+		// (3) only the calls documented as not touching the state, all at once and all different: VerifyShare of
+		// distinct signers (genuine, another signer's, wrong message, garbage), VerifyThresholdSignature of each
+		// kind of argument, SignShare; their answers do not depend on the schedule
+		in := small()
+		in.Participant, in.My = true, r.IntN(in.N)
+		g := 4 + r.IntN(5)
+		in.Threads = make([][]c18Op, g)
+		for j := 0; j < g; j++ {
+			i := j % in.N
+			var o c18Op
+			switch r.IntN(6) {
+			case 0:
+				o = c18Op{Op: "vts", G: j % 4}
+			case 1:
+				o = c18Op{Op: "ss"}
+			case 2:
+				o = c18Op{Op: "vs", I: i, S: []int{2*i + 1, 2 * ((i + 1) % in.N), 2 * in.N}[r.IntN(3)]}
+			default:
+				o = c18Op{Op: "vs", I: i, S: 2 * i}
+			}
+			in.Threads[j] = []c18Op{o}
+		}
+		if g < 9 {
+			in.Threads[0] = append(in.Threads[0], c18Op{Op: "vts", G: 0})
+		}
+		cs = append(cs, mkcase("concurrent-stateless-calls", in))
+
+		// (4) a full pool of genuine shares, then every goroutine reconstructs at the same time (the first
+		// reconstruction is concurrent): one signature, the same for all, also afterwards
+		in = small()
+		perm := r.Perm(in.N)
+		for j := 0; j <= in.T; j++ {
+			in.Seq = append(in.Seq, addOp(perm[j]))
+		}
+		g = 2 + r.IntN(4)
+		if in.T+1+g > 9 {
+			g = 9 - in.T - 1
+		}
+		in.Threads = make([][]c18Op, g)
+		for j := 0; j < g; j++ {
+			in.Threads[j] = []c18Op{{Op: "ts"}}
+		}
+		if in.T+1+g < 9 && in.T+1 < in.N {
+			in.Threads[g-1] = append(in.Threads[g-1], addOp(perm[in.T+1]))
+		}
+		cs = append(cs, mkcase("concurrent-first-reconstruction", in))
 	}
 	return cs
 }
